@@ -27,6 +27,7 @@ package syncer
 //@   ensures reserved: hdrReservedZero(val)
 //@   ensures padding_zero: it.HeaderPaddingBlock ==> hdrPaddingZero(val)
 //@   ensures deleted_empty: effDel ==> len(val) == 24 + 8*pad && seqLen(appSeq(val)) == 0
+//@   ensures value_after_header!: !effDel ==> seqof(val[24+8*pad:]) == old(seqof(entryVal))
 //@   ensures value: !effDel ==> appSeq(val) == old(seqof(entryVal))
 //@   ensures v1_empty_is_deleted: len(entryVal) == 0 && it.FormatVersion < 2 ==> hdrFlags(val) & 1 != 0
 
